@@ -3,14 +3,106 @@
 B (model-based run-time contract): random branching histories of make_child on the real UPState (subclasses
 with MAX_ANCESTORS in {1, 2, 3, 20, None}) against a plain dict model: get_value returns the most recent
 update along the history, else the fluent's default, else raises UPStateMissingFluentError; == and hash
-agree with equality of the total views.  A heap-linked proof (ghost view field) is planned (DESIGN.md 2.6);
-until then this property is decided bounded only.
+agree with equality of the total views.  P: UPState.get_value is proved on the real source for an arbitrary ancestor chain against the recursively defined finite-map
+view (loop invariant over the father link); make_child / _condense_state / == / hash are bounded only.
 """
 import random
 import warnings
 
-UNITS = []
 USES_THEORY = False
+
+# ------------------------------------------------------------------------------------------------ proved kernel
+# UPState.get_value on the real source over an arbitrary (acyclic) chain of ancestors.  The finite-map view of a state is
+# defined by recursion on the father link:   view(s)[k] = s._values[k] if k in s._values else view(s._father)[k]
+# (undefined when there is no father).  Proved: the while loop returns view(self)[k] when it is defined, otherwise the
+# fluent's default, otherwise raises UPStateMissingFluentError -- for every state, chain length and key.
+import z3
+from pyvc.values import Ref, Map, Opt, SBool, SRef, SUnion, fresh_name
+from pyvc.values import Bool as PBool
+from pyvc.verify import Unit
+from pyvc.engine import LoopSpec
+from pyvc import builtins as B
+import unified_planning.model.state as _sm
+from unified_planning.exceptions import UPStateMissingFluentError as _Missing
+
+FN = Ref("FNode36")
+FL = Ref("Fluent36")
+FS = Ref("FluentSet36")
+ST = Ref("UPState36")
+FN.observers["fluent"] = ((), FL)
+FS.fields["fluents_defaults"] = Map(FL, FN)
+ST.fields["_values"] = Map(FN, FN)
+ST.fields["_father"] = Opt(ST)
+ST.fields["_fluent_set"] = FS
+QN_GV = "unified_planning.model.state.UPState.get_value"
+
+_S, _K = ST.z3sort(), FN.z3sort()
+Vhas = z3.Function("view.has", _S, _K, z3.BoolSort())
+Vval = z3.Function("view.val", _S, _K, _K)
+vals_has = B._uf("UPState36._values.has", _S, z3.ArraySort(_K, z3.BoolSort()))
+vals_val = B._uf("UPState36._values.val", _S, z3.ArraySort(_K, _K))
+father_none = B._uf("UPState36._father.isnone", _S, z3.BoolSort())
+father = B._uf("UPState36._father", _S, _S)
+
+
+def view_axioms():
+    s, k = z3.Const("s!v", _S), z3.Const("k!v", _K)
+    own = z3.Select(vals_has(s), k)
+    return [z3.ForAll([s, k], Vhas(s, k) == z3.Or(own, z3.And(z3.Not(father_none(s)), Vhas(father(s), k))), patterns=[Vhas(s, k)]),
+            z3.ForAll([s, k], Vval(s, k) == z3.If(own, z3.Select(vals_val(s), k), Vval(father(s), k)), patterns=[Vval(s, k)])]
+
+
+class GetValue(Unit):
+    prop = "C36"
+    name = "UPState.get_value"
+    doc = "returns the finite-map view's value, else the fluent's default, else raises UPStateMissingFluentError"
+    allowed_raises = (_Missing,)
+
+    def target(self):
+        return _sm.UPState.get_value
+
+    def configure(self, eng):
+        eng.axioms.extend(view_axioms())
+
+        def inv(L):
+            cur = L.current_instance
+            k = L.fluent
+            me = L.self
+            if isinstance(cur, SUnion):
+                # Optional[UPState]: None means the chain is exhausted without finding the key
+                alts = []
+                for g, v in cur.alts:
+                    if v is None:
+                        alts.append(z3.Implies(g, z3.Not(Vhas(me.z, k.z))))
+                    else:
+                        alts.append(z3.Implies(g, z3.And(Vhas(me.z, k.z) == Vhas(v.z, k.z), z3.Implies(Vhas(v.z, k.z), Vval(me.z, k.z) == Vval(v.z, k.z)))))
+                return SBool(z3.And(alts))
+            if cur is None:
+                return SBool(z3.Not(Vhas(me.z, k.z)))
+            return SBool(z3.And(Vhas(me.z, k.z) == Vhas(cur.z, k.z), z3.Implies(Vhas(cur.z, k.z), Vval(me.z, k.z) == Vval(cur.z, k.z))))
+        eng.loops[(QN_GV, 0)] = LoopSpec(inv, modifies=["current_instance", "value_found"], types={"current_instance": Opt(ST), "value_found": Opt(FN)})
+
+    def setup(self, eng, st):
+        me, k = ST.fresh("self"), FN.fresh("fluent")
+        return [me, k], {}, dict(me=me, k=k)
+
+    def post(self, eng, ctx, st, out):
+        me, k = ctx["me"], ctx["k"]
+        fs = B._uf("UPState36._fluent_set", _S, FS.z3sort())(me.z)
+        fl = B._uf("FNode36.fluent()", _K, FL.z3sort())(k.z)
+        dh = z3.Select(B._uf("FluentSet36.fluents_defaults.has", FS.z3sort(), z3.ArraySort(FL.z3sort(), z3.BoolSort()))(fs), fl)
+        dv = z3.Select(B._uf("FluentSet36.fluents_defaults.val", FS.z3sort(), z3.ArraySort(FL.z3sort(), _K))(fs), fl)
+        if out[0] == "raise":
+            st.oblige("raises only when neither the view nor the defaults have the key", z3.And(z3.Not(Vhas(me.z, k.z)), z3.Not(dh)))
+            return
+        r = out[1]
+        if isinstance(r, SUnion):
+            r = r.some()
+        st.oblige("view value when the view has the key", z3.Implies(Vhas(me.z, k.z), r.z == Vval(me.z, k.z)))
+        st.oblige("default otherwise", z3.Implies(z3.Not(Vhas(me.z, k.z)), z3.And(dh, r.z == dv)))
+
+
+UNITS = [GetValue()]
 
 
 def bounded(tier, seed):
@@ -103,5 +195,5 @@ def bounded(tier, seed):
             "samples": samples, "bound": f"{nhist} histories x {steps} steps"}
 
 
-LEVEL = "exploration"
+LEVEL = "other"
 EXPLANATION = __doc__
